@@ -21,7 +21,8 @@ class KGen:
     def __init__(self, rng: random.Random, weights: dict[str, float] | None = None, *,
                  malformed: float = 0.06, wrong_state: float = 0.08, max_ctx: int = 8, max_tasks: int = 3,
                  td_depth: int = 2, gated: float = 0.35, exc_end: float = 0.4, many_callbacks: bool = False,
-                 p_cancel: float = 0.0, p_pair: float = 0.25, p_manual: float = 0.0, p_mid: float = 0.0) -> None:
+                 p_cancel: float = 0.0, p_pair: float = 0.25, p_manual: float = 0.0, p_mid: float = 0.0,
+                 p_cur_after: float = 0.0) -> None:
         self.rng = rng
         self.w = dict(DEFAULT_WEIGHTS)
         if weights:
@@ -35,6 +36,7 @@ class KGen:
         self.exc_end = exc_end
         self.p_cancel = p_cancel
         self.p_mid = p_mid
+        self.p_cur_after = p_cur_after
         self.queue: list[dict[str, Any]] = []
         self.p_pair = p_pair
         self.p_manual = p_manual
@@ -380,6 +382,10 @@ class KGen:
             op = self.gen_op()
             if op is not None:
                 ops.append(op)
+                if op["op"] in ("getnw", "get", "inject", "addtd", "add") and self.rng.random() < self.p_cur_after:
+                    # whatever the operation did (a factory that ran or failed, a generator's first half, …), the
+                    # task's current context afterwards is what it was before
+                    self.queue.append({"op": "current", "t": op.get("t", 0)})
         ops += self.queue
         ops += self.closing_ops()
         # every async lookup gets its own label (suspended lookups are reported under it)
